@@ -20,6 +20,10 @@ void __verif_divcheck(int ok);
 void __verif_memcpy(u8* d, const u8* s, u64 n);
 void __verif_memmove(u8* d, const u8* s, u64 n);
 void __verif_memset(u8* d, u8 c, u64 n);
+/* word-wise variants (n counts words); used for constant-length operations on uniformly typed objects */
+void __verif_memset16(u16* d, u8 c, u64 n); void __verif_memset32(u32* d, u8 c, u64 n); void __verif_memset64(u64* d, u8 c, u64 n);
+void __verif_memcpy16(u16* d, const u16* s, u64 n); void __verif_memcpy32(u32* d, const u32* s, u64 n); void __verif_memcpy64(u64* d, const u64* s, u64 n);
+void __verif_memmove16(u16* d, const u16* s, u64 n); void __verif_memmove32(u32* d, const u32* s, u64 n); void __verif_memmove64(u64* d, const u64* s, u64 n);
 
 /* --- bit intrinsics --- */
 u8 __verif_ctpop8(u8 x); u16 __verif_ctpop16(u16 x); u32 __verif_ctpop32(u32 x); u64 __verif_ctpop64(u64 x);
